@@ -39,8 +39,9 @@ pub fn build_merkle_nodes<H: Hasher>(leaves: &[H::Digest]) -> Vec<H::Digest> {
     // calculate all other tree nodes, we can't use regular iterators  here because
     // access patterns are rather complicated - so, we use regular threads instead
 
-    // number of sub-trees must always be a power of 2
-    let num_subtrees = rayon::current_num_threads().next_power_of_two();
+    // number of sub-trees must always be a power of 2, and there cannot be more sub-trees than
+    // nodes in a row of the tree (n is a power of two as well)
+    let num_subtrees = core::cmp::min(rayon::current_num_threads().next_power_of_two(), n);
     let batch_size = n / num_subtrees;
 
     // re-interpret nodes as an array of two nodes fused together
